@@ -738,3 +738,42 @@ Proof.
   intros super pts H k Hk. unfold cavities_okb in H.
   pose proof (cav_run_ok _ _ _ _ _ H k ltac:(lia)) as R. rewrite Nat.sub_0_r in R. exact R.
 Qed.
+
+(* ================================================================== 9. a repeated input point is ignored *)
+Lemma incircle_point_ext : forall a b c p q,
+  fst p == fst q -> snd p == snd q -> incircle a b c p == incircle a b c q.
+Proof. intros a b c p q Hx Hy. unfold incircle. rewrite Hx, Hy. reflexivity. Qed.
+
+Lemma in_circb_point_ext : forall P t p q,
+  fst p == fst q -> snd p == snd q -> in_circb P t p = in_circb P t q.
+Proof.
+  intros P t p q Hx Hy. apply bool_ext. rewrite !in_circb_lt.
+  destruct (resolve P t) as [[a b] c]. unfold gincircle.
+  rewrite (incircle_point_ext a b c p q Hx Hy). reflexivity.
+Qed.
+
+Lemma filter_all : forall A (f : A -> bool) l, (forall x, In x l -> f x = true) -> filter f l = l.
+Proof.
+  intros A f l. induction l as [|a l IH]; intros H; simpl; [reflexivity|].
+  rewrite (H a (or_introl eq_refl)). f_equal. apply IH. intros x Hx. apply H. right. exact Hx.
+Qed.
+Lemma filter_none : forall A (f : A -> bool) l, (forall x, In x l -> f x = false) -> filter f l = [].
+Proof.
+  intros A f l. induction l as [|a l IH]; intros H; simpl; [reflexivity|].
+  rewrite (H a (or_introl eq_refl)). apply IH. intros x Hx. apply H. right. exact Hx.
+Qed.
+
+(* if point i coincides with an already inserted point j, no circumcircle contains it strictly, the
+   cavity is empty and the insertion changes nothing: index i is simply never used *)
+Theorem duplicate_ignored : forall P T i j (old : nat -> Prop),
+  empty_for P T old -> old j ->
+  fst (nth i P pzero) == fst (nth j P pzero) -> snd (nth i P pzero) == snd (nth j P pzero) ->
+  insert P T i = T.
+Proof.
+  intros P T i j old Inv Hj Hx Hy.
+  assert (B : bad_of P T i = []).
+  { unfold bad_of. apply filter_none. intros t Ht.
+    rewrite (in_circb_point_ext P t _ _ Hx Hy). apply Inv; assumption. }
+  unfold insert. rewrite B. cbn [polygon flat_map fill_hole fold_left].
+  apply filter_all. intros. reflexivity.
+Qed.
